@@ -257,14 +257,14 @@ func kindConsts(c *an.Ctx) map[string]int64 {
 func c03r3(c *an.Ctx) {
 	sa := streamA(c)
 	a := A(c)
-	wf := a.obj("drpcwire", "(*Writer).WriteFrame")
+	wapi := writerAPI(c)
 	fl := a.obj("drpcwire", "(*Writer).Flush")
 	n := 0
 	for _, rw := range frameLoopFns(c) {
 		// typestate: which signals have been tested (false) since the last WriteFrame (or since the function was entered)
 		flow := &an.Flow{Fn: rw, Inline: an.InlineSamePackage(rw), Init: []string{""},
 			Step: func(st string, in ssa.Instruction) []string {
-				if ci, ok := in.(ssa.CallInstruction); ok && an.IsCallTo(ci.Common(), wf) {
+				if ci, ok := in.(ssa.CallInstruction); ok && wapi.emits(ci.Common()) {
 					return []string{""}
 				}
 				return nil
@@ -295,7 +295,11 @@ func c03r3(c *an.Ctx) {
 				inLoop[b] = true
 			}
 		}
-		for _, cs := range an.CallsTo(rw, false, wf) {
+		var emitSites []an.CallSite
+		for _, m := range wapi.Emit {
+			emitSites = append(emitSites, an.CallsTo(rw, false, m)...)
+		}
+		for _, cs := range emitSites {
 			if !inLoop[cs.Instr.Block()] {
 				continue // single-frame emissions are C03.R2's
 			}
@@ -578,11 +582,28 @@ func c03r6(c *an.Ctx) {
 	}
 	c.Check(ok, "(*Stream).terminate | send.Set; recv.Set; term.Set; pbuf.Close", c.P.Pos(term.Pos()), "", fmt.Sprintf("terminate's update order is %v, want %v (observers of term must already see send/recv closed; receivers are woken last)", names, want))
 	if ok {
+		// each of the four runs on every call, except that closing the buffer may be left to the call that wins term.Set
+		// (the buffer keeps its first error, so a later Close is a no-op)
+		entry := term.Blocks[0]
+		for i, in := range order {
+			uncond := true
+			for _, g := range an.GuardsOf(in.Block()) {
+				if g.If != nil && g.If.Block() != entry && !entry.Dominates(g.If.Block()) {
+					continue
+				}
+				if i == 3 && g.True && g.Cond == order[2].(ssa.Value) {
+					continue
+				}
+				uncond = false
+			}
+			c.Check(uncond, "(*Stream).terminate | "+names[i]+" runs on every call", c.At(in), "", "a step of the termination is skipped on some calls: "+names[i]+" is conditional")
+		}
 		errParam := term.Params[1]
 		for i, in := range order {
 			cc := in.(ssa.CallInstruction).Common()
 			arg := an.Arg(cc, 0)
-			c.Check(arg == ssa.Value(errParam), "(*Stream).terminate | "+names[i]+" receives terminate's error", c.At(in), "", "a state signal is set with a different error than the termination cause")
+			// the parameter itself, or its one copy in memory when a closure (a debug message) captures it
+			c.Check(arg == ssa.Value(errParam) || an.Resolve(an.Unwrap(arg)) == ssa.Value(errParam), "(*Stream).terminate | "+names[i]+" receives terminate's error", c.At(in), "", "a state signal is set with a different error than the termination cause")
 		}
 	}
 
